@@ -282,6 +282,9 @@ func c12Stats(c *sink, cs *c12Case, res *c12Result) {
 	for _, h := range res.run.History {
 		c.Stat("result:" + h.Op.Kind + ":" + strings.SplitN(h.Res, ":", 2)[0])
 	}
+	for k := range res.run.TraceCounts() {
+		c.Stat("runs-with:" + k)
+	}
 	sw := 0
 	for i := 1; i < len(res.sched); i++ {
 		if res.sched[i] != res.sched[i-1] {
